@@ -33,19 +33,26 @@ def IKEY(x):
 
 # scalar leaves: the specification's small integers stand for leaves of several classes when LEAFMODE is on - str and
 # bytes (sequences that remap must NOT descend into), None, float, bool-free ints
-LEAFMODE = False
+# LEAFMODE 2 ("equal twins"): every leaf is a float whose rewritten form (programs 3 and 9) is the int that compares
+# equal to it - a rebuilt container that == the old one is still a different result (1.0 is not 1)
+LEAFMODE = 0
+_LEAF2 = {1: 11.0, 2: 12.0, 3: 13.0, 4: 14.0, 11: 11, 12: 12, 13: 13, 14: 14}
+_ILEAF2 = {("float", 11.0): 1, ("float", 12.0): 2, ("float", 13.0): 3, ("float", 14.0): 4, ("int", 11): 11, ("int", 12): 12,
+           ("int", 13): 13, ("int", 14): 14}
 _LEAF = {1: "s1", 2: b"b2", 3: None, 4: 2.5, 11: "s11", 12: b"b12", 13: 13, 14: 14.5}
 _ILEAF = {("str", "s1"): 1, ("bytes", b"b2"): 2, ("NoneType", None): 3, ("float", 2.5): 4, ("str", "s11"): 11, ("bytes", b"b12"): 12,
           ("int", 13): 13, ("float", 14.5): 14}
 
 
 def LEAF(v):
-    return _LEAF.get(v, v) if LEAFMODE else v
+    return (_LEAF2 if LEAFMODE == 2 else _LEAF).get(v, v) if LEAFMODE else v
 
 
 def ILEAF(x):
     if not LEAFMODE or isinstance(x, (dict, list, tuple, set, frozenset)):
         return x
+    if LEAFMODE == 2:
+        return _ILEAF2.get((type(x).__name__, x), x if isinstance(x, int) and not isinstance(x, bool) else -999)
     return _ILEAF.get((type(x).__name__, x), x if isinstance(x, int) and not isinstance(x, bool) else -999)
 
 
@@ -250,7 +257,7 @@ def run_row(row):
     bad = []
     heap, prog = row["heap"], row["prog"]
     global LEAFMODE
-    LEAFMODE = (len(json.dumps(heap)) + prog) % 2 == 1        # every other row with leaves of mixed classes
+    LEAFMODE = (len(json.dumps(heap)) + prog) % 3             # a third of the rows with leaves of mixed classes, a third with equal twins
     objs = build(heap)
     before = snapshot(objs, heap)
     try:
@@ -398,7 +405,7 @@ def records(rng, count):
             continue
         prog = rng.choice([0, 1, 3, 5, 6, 0, 2, 4, 9] + ([7, 7, 7, 8, 8, 8] if tree and is_tree(heap) else []))
         global LEAFMODE
-        LEAFMODE = len(recs) % 2 == 1
+        LEAFMODE = len(recs) % 3
         objs = build(heap)
         before = snapshot(objs, heap)
         n = len(heap)
